@@ -173,6 +173,9 @@ impl RedbKVVStore {
             && final(self).versions.val@[k] >= old(self).versions.val@[k],                                      //[C16.redb.batch-versions-never-decrease]
         r.is_ok() ==> forall|i: int| 0 <= i < kvvs@.len() ==> !old(self).versions.val@.dom().contains((#[trigger] kvvs@[i]).0@)
             || kvvs@[i].1.0 >= old(self).versions.val@[kvvs@[i].0@],                                            //[C16.redb.batch-rule]
+        // a write at the current version is accepted only with the content that is stored
+        r.is_ok() ==> forall|i: int| 0 <= i < kvvs@.len() && old(self).versions.val@.dom().contains((#[trigger] kvvs@[i]).0@)
+            && kvvs@[i].1.0 == old(self).versions.val@[kvvs@[i].0@] ==> old(self).db@[kvvs@[i].0@] == enc(kvvs@[i].1.0, kvvs@[i].1.1@),   //[C16.redb.batch-same-version-same-content]
 //@sub /let tx = self\.db\.begin_write\(\)\.vx_expect\(\);/ => let mut tx = self.db.vx_begin_write();
 //@sub /let mut table = tx\.open_table\(TABLE\)\.vx_expect\(\);/ => 
 //@sub /let existing = table\.get\(key\)\.vx_expect\(\)\.vx_expect\(\);/ => let existing = tx.vx_get(key);
@@ -198,8 +201,20 @@ impl RedbKVVStore {
                     !self.versions.val@.dom().contains(k) || staged_versions@[k] > self.versions.val@[k],
                 !found_version_mismatch ==> forall|i: int| 0 <= i < it.index@ ==> !self.versions.val@.dom().contains((#[trigger] kvvs@[i]).0@)
                     || kvvs@[i].1.0 >= self.versions.val@[kvvs@[i].0@],
+                !found_version_mismatch ==> forall|i: int| 0 <= i < it.index@ && self.versions.val@.dom().contains((#[trigger] kvvs@[i]).0@)
+                    && kvvs@[i].1.0 == self.versions.val@[kvvs@[i].0@] ==> self.db@[kvvs@[i].0@] == enc(kvvs@[i].1.0, kvvs@[i].1.1@),
 //@proof before /tx\.vx_insert\(key, vv\.as_slice\(\)\);/
             proof { assert(enc(version, value@).take(8) =~= be8(version)); }
+//@proof before /vx_cont = true;/
+                    proof {
+                        // equal version and equal bytes in the transaction: the key cannot have been staged by an earlier
+                        // entry of this batch (its version prefix would differ), so these are the committed bytes
+                        assert(enc(version, value@).take(8) =~= be8(version));
+                        if !found_version_mismatch && staged_versions@.dom().contains(key@) {
+                            axiom_unbe8(version); axiom_unbe8(staged_versions@[key@]);
+                            assert(false);
+                        }
+                    }
 //@proof before /self\.db\.vx_commit\(tx\);/
         let ghost t_final = tx@;
         let ghost st_final = staged_versions@;
